@@ -154,7 +154,9 @@ Definition judge (c : c18case) : N :=
                        end in
         (* the model: [logged] failed accepts (sleep and retry), then the
            socket: the loop is still accepting, has slept that often, and the
-           connection is answered *)
+           connection is answered.  Whether the failing accept was reached
+           before the table was released is a matter of scheduling: it is
+           recorded (tags), not asserted. *)
         let evs := repeat (Loop (AcceptResult (Err (OtherKind 24)))) (N.to_nat (N.min logged 64))
                    ++ open_and_send tls 1 [] in
         let s := srv_run areq (fun _ => ([health_areq], TIncomplete [])) (respond Detached)
@@ -162,7 +164,7 @@ Definition judge (c : c18case) : N :=
         let model :=
           match s_loop s, lookup 1 (s_conns s) with
           | Accepting, Some (Open _ [st]) =>
-              (st =? 200) && (s_slept s =? N.min logged 64) && (1 <=? logged)
+              (st =? 200) && (s_slept s =? N.min logged 64)
           | _, _ => false
           end in
         if negb spec then V_VIOLATION else if model then V_AGREE else V_DIVERGE
